@@ -50,6 +50,7 @@ import JanetModel.Compile.SeqErrIfCond
 import JanetModel.Compile.SeqWhileAll
 import JanetModel.Compile.SeqNoBrkSem
 import JanetModel.Compile.SeqErrTail
+import JanetModel.Compile.SeqErrTailIf
 namespace JanetModel.Props.C02
 open JanetModel.Emit
 
@@ -666,10 +667,20 @@ theorem compile_correct_while (p : Program) (f0 : Frame) (rest : List Frame) (V 
     (fun n cur env0 s0 v0 s1 hg => tf_evalSeq_nobrk G b n cur env0 body s0 v0 s1 hg hTb)
     opts c c' slot sc rs pool ps n cur env env' s s' v ht hh hs hp hl hm hcomp hsem henv
 
-/-- non-vacuity: `Lang/Sem` runs a loop of the fragment to completion: `(while (next) (emit 1))` with a condition that turns falsy —
-    here a loop whose condition is false at once evaluates to nil -/
-example : (match eval 10 {} [] (.form [.sym "while", .lit (.bool false), .form [.sym "emit", .lit (.num 1)] {}] {}) {} with
-           | .ok (.nil, _) _ => true | _ => false) = true := by decide
+/-- non-vacuity: `Lang/Sem` runs a loop of the fragment to completion — `(do (def a (array :x :y)) (while (array/pop a) (emit :tick)))`:
+    the condition is a call whose value depends on the heap; two iterations, two effects, value nil; the condition and the body
+    statement are in the fragment with `G = {array/pop, emit}` -/
+example : (match eval 30 {} [] (.form [.sym "do", .form [.sym "def", .sym "a", .form [.sym "array", .lit (.kw "x"), .lit (.kw "y")] {}] {},
+            .form [.sym "while", .form [.sym "array/pop", .sym "a"] {}, .form [.sym "emit", .lit (.kw "tick")] {}] {}] {}) {} with
+           | .ok (.nil, _) s => s.st.trace.size == 2 | _ => false) = true := by decide
+example : CondOK (.form [.sym "array/pop", .sym "a"] {}) ∧
+    TF (fun f => f = "array/pop" ∨ f = "emit") false (.form [.sym "array/pop", .sym "a"] {}) ∧
+    TF (fun f => f = "array/pop" ∨ f = "emit") false (.form [.sym "emit", .lit (.kw "tick")] {}) := by
+  refine ⟨Or.inr (Or.inr (Or.inl ⟨"array/pop", _, {}, rfl, by decide⟩)), ?_, ?_⟩
+  · exact .call "array/pop" _ {} (by decide) (by decide) (Or.inl rfl) (fun a ha => by
+      simp only [List.mem_cons, List.not_mem_nil, or_false] at ha; subst ha; exact .sym "a")
+  · exact .call "emit" _ {} (by decide) (by decide) (Or.inr rfl) (fun a ha => by
+      simp only [List.mem_cons, List.not_mem_nil, or_false] at ha; subst ha; exact .lit _ trivial)
 
 /-- **`var` declarations**: `(var x e)` with `e` in the fragment `TF G b`, in a local scope, value used or dropped (no hint).
     `janetc_var` = the value, then `namelocal` with the MUTABLE flag: never an alias — always a fresh register and a copy — and the new
@@ -750,10 +761,10 @@ example : TF (fun f => f = "error" ∨ f = "tuple") false
       simp only [List.mem_cons, List.not_mem_nil, or_false] at ha; subst ha; exact .lit _ trivial)
 
 /-- **The error outcome of a function body** (and of a form in tail position): `fnBody` (`janetc_fn`'s body loop: every form but the
-    last dropped, the last in TAIL position) over forms of the if-free fragment `TF G false`, and `Lang/Sem.evalSeq` of the body is an
+    last dropped, the last in TAIL position) over forms of the fragment `TF G b`, and `Lang/Sem.evalSeq` of the body is an
     ERROR `.err ev epos s'` — raised in a leading statement (non-tail: `compile_correct_error`) or in the last form (tail position:
-    an operand raises, or the application raises AT THE TAILCALL, or a statement of a tail `do` …: `ErrAtT`, an induction of its
-    own, `Compile/SeqErrTail.lean`, `SeqErrTailCall.lean`; the code after the failing form — including the `RETURN` — is never
+    an operand raises, or the application raises AT THE TAILCALL, or a statement of a tail `do`, or the condition / taken branch of a
+    tail `if` …: `ErrAtT`, an induction of its own, `Compile/SeqErrTail.lean`, `SeqErrTailCall.lean`, `SeqErrTailIf.lean`; the code after the failing form — including the `RETURN` — is never
     reached and is append-only / `max`-monotone compile-only: `tf_shapeT`, `tf_maxT`).  Then the VM, started at the body's code,
     reaches a configuration in the world of `s'` whose next step raises `ev` at `epos` (`ErrOK`).  With `compile_correct_fn_body`:
     a function body of the fragment returns what `Lang/Sem` returns and raises what `Lang/Sem` raises. -/
@@ -764,14 +775,13 @@ theorem compile_correct_fn_body_error (p : Program) (f0 : Frame) (rest : List Fr
     (fuel : Nat) (body : List Expr) (c c' : CState) (sc : Scope) (rs : List Scope) (pool : List JanetModel.Emit.KConst)
     (ps : List (List JanetModel.Emit.KConst)) (n : Nat) (cur : Pos) (env : Env) (s s' : SS) (ev : Value) (epos : Pos)
     (hs : c.scopes = sc :: rs) (hp : c.pools = pool :: ps) (hl : c.lim ≤ 240) (htop : sc.top = false)
-    (hm : c.map.length = c.buf.length) (hcur : c.cur = cur) (hbody : ∀ e, e ∈ body → TF G false e)
+    (hm : c.map.length = c.buf.length) (hcur : c.cur = cur) (b : Bool) (hbody : ∀ e, e ∈ body → TF G b e)
     (hcomp : fnBody (cValue fuel) body c = some c') (hsem : evalSeq n cur env body s = .err ev epos s')
     (henv : EnvS G c.scopes env s.boxes.size sc.ra) :
     ErrOK p f0 rest V P c c' rs ps env s s' ev epos :=
-  fnBody_err p f0 rest V P G false false fuel (tf_correct_b p f0 rest V P hP hK FF G false fuel)
-    (tf_err_correct_b p f0 rest V P hP hK FF G false false (tf_correct_b p f0 rest V P hP hK FF G false) fuel)
-    (tf_errT_gen p f0 rest V P hP hK FF G false false (tf_correct_b p f0 rest V P hP hK FF G false)
-      (tf_err_correct_b p f0 rest V P hP hK FF G false false (tf_correct_b p f0 rest V P hP hK FF G false)) (fun h => absurd h (by simp)) fuel)
+  fnBody_err p f0 rest V P G b b fuel (tf_correct_b p f0 rest V P hP hK FF G b fuel)
+    (tf_err_correct_b p f0 rest V P hP hK FF G b b (tf_correct_b p f0 rest V P hP hK FF G b) fuel)
+    (tf_errT_correct_b p f0 rest V P hP hK FF G b b (tf_correct_b p f0 rest V P hP hK FF G b) fuel)
     body hbody c c' sc rs pool ps n cur env s s' ev epos hs hp hl htop hm hcur hcomp hsem henv
 
 /-- **Compile correctness, tail position (calls)**: a call `(f e₁ … eₙ)` of a global core function (`G f`, not `apply`, not a
